@@ -103,7 +103,8 @@ HOSTS = [b"remote.example.org", b"10.1.2.3", b"gopher.floodgap.com", b"(NULL)", 
 PORTS = [b"70", b"7070", b"0", b"007", b"65535", b"1", b"105"]
 URLS = [b"URL:http://example.org/", b"/URL:http://example.org/a?b=c", b"URL:ftp://ftp.example.org/pub/",
         b"URL:mailto:someone@example.org", b"URL:https://example.org/x%20y"]
-PAD = [b" ", b"  ", b"\x0b", b"\x0c", b"\x1c", b"\x1f", b"\xc2\xa0", b"\xc2\x85", b"\xe2\x80\x83", b"\r", b" \r", b"\xe3\x80\x80"]
+# every character str.isspace() accepts, except LF (ends the line) and TAB (separates fields), plus a few combinations
+PAD = [chr(c).encode("utf-8") for c in range(0x3001) if chr(c).isspace() and c not in (9, 10)] + [b"  ", b" \r", b"\r", b" \x0b "]
 
 
 def gen_text(rng, lo, hi):
@@ -507,7 +508,7 @@ def run(tier):
                               "tree": sel_tree, "config": CONFIG})
 
     # ---------------- worlds ----------------
-    nworld = {"wf": 40, "padded": 20, "raising": 10} if thorough else {"wf": 12, "padded": 6, "raising": 4}
+    nworld = {"wf": 120, "padded": 50, "raising": 25} if thorough else {"wf": 20, "padded": 10, "raising": 6}
     worlds = []
     for stream, cnt in nworld.items():
         for wi in range(cnt):
